@@ -24,7 +24,7 @@ FUNCTIONS = ["ioflo.base.needing.NeedUpdate.action", "ioflo.base.needing.NeedCha
              "ioflo.base.storing.Share.value setter (stamping)", "ioflo.base.building.Builder.makeMarkerNeed (concrete text)"]
 ASSUMPTIONS = [
     "variants: V1 no 'in frame' (mark reset only by the taken transition), V2 'in frame a', V3 shared 'by mk' mark used by both frames' transitions, "
-    "V4 shared mark with 'in frame' entry resets in both frames; each for 'updated' and 'changed'",
+    "V4 shared mark with 'in frame' entry resets in both frames, V5 two conditions of one frame on two different shares both marked 'in frame'; each for 'updated' and 'changed'",
     "integer store time, one tick = 1; writes are share.value assignments (stamp = store time) before and/or after the framer's run",
     "symbolic: written values in [0,2], entry-guard values and return trigger in [0,1]; selectors: whether a write happens before/after the run in each tick",
     "the share starts unstamped (created before the store has a time) with value 0",
@@ -41,8 +41,15 @@ def script(variant, kind):
         ca, cb = "s is %s in frame a" % K, "x >= 1"
     elif variant == "V3":
         ca, cb = "s is %s by mk" % K, "s is %s by mk" % K
-    else:
+    elif variant == "V4":
         ca, cb = "s is %s in frame a by mk" % K, "s is %s in frame b by mk" % K
+    else:   # V5: two conditions of frame a on DIFFERENT shares, both marked on entry to a
+        return "\n".join([
+            "house h", "  framer m be active first a",
+            "    frame a", "      let me if ga >= 1", "      do verif record at enter",
+            "      go b if s is %s in frame a" % K, "      go b if s2 is %s in frame a" % K,
+            "    frame b", "      let me if gb >= 1", "      do verif record at enter", "      go a if x >= 1",
+        ]) + "\n"
     return "\n".join([
         "house h", "  framer m be active first a",
         "    frame a", "      let me if ga >= 1", "      do verif record at enter", "      go b if " + ca,
@@ -144,9 +151,92 @@ def h(sym, variant, kind, ticks):
     return True
 
 
+def h5(sym, kind, ticks, post=False):
+    """V5: frame a has two marked conditions on different shares s and s2, both 'in frame a'
+    (so each share's mark must be set on every entry to a)."""
+    text = script("V5", kind)
+    with flogen.notrace(sym):
+        house = flogen.build_text(text)[0]
+    store = house.store
+    m = house.framers[0]
+    sh = {"s": store.create("s"), "s2": store.create("s2")}
+    store.stamp = None
+    sh["s"].value = 0
+    sh["s2"].value = 0
+    ga, gb, x = store.create("ga"), store.create("gb"), store.create("x")
+    store.stamp = 0
+    ga.value = 1
+    gb.value = 1
+    x.value = 0
+    marks = {"s": Mark(), "s2": Mark()}
+    state = {"s": [None, 0], "s2": [None, 0]}     # share -> [stamp, value]
+
+    def cond(n):
+        mk, (st_, val) = marks[n], state[n]
+        if kind == "update":
+            if st_ is None:
+                return False
+            return mk.stamp is None or st_ > mk.stamp or (st_ == mk.stamp and mk.used != mk.stamp)
+        return mk.snap is None or mk.snap[0] != val
+
+    def reset(n, now, transit):
+        mk = marks[n]
+        mk.stamp = now
+        if transit:
+            mk.used = now
+        mk.snap = (state[n][1],)
+
+    def write(tag, k):
+        w = sym.choice("%s%d" % (tag, k), 3)
+        if w:
+            n = "s" if w == 1 else "s2"
+            v = sym.int("v%s%d" % (tag, k), 0, 2)
+            sh[n].value = v
+            state[n] = [k, v]
+            sym.cover("write-" + n)
+
+    st = m.runner.send(START)
+    sym.check(st == 1 and m.active.name == "a", "C20/harness/start")
+    cur = "a"
+    reset("s", 0, False)
+    reset("s2", 0, False)
+    for k in range(1, ticks + 1):
+        store.stamp = k
+        gav = sym.int("ga%d" % k, 0, 1)
+        gbv = sym.int("gb%d" % k, 0, 1)
+        xv = sym.int("x%d" % k, 0, 1)
+        ga.value = gav
+        gb.value = gbv
+        x.value = xv
+        write("wpre", k)
+        m.runner.send(RUN)
+        if cur == "a":
+            for n in ("s", "s2"):
+                if cond(n) and gbv >= 1:
+                    reset(n, k, True)
+                    cur = "b"
+                    sym.cover("taken-on-" + n)
+                    break
+        else:
+            if xv >= 1 and gav >= 1:
+                cur = "a"
+                reset("s", k, False)
+                reset("s2", k, False)
+                sym.cover("re-entered")
+        sym.check(m.active.name == cur, "C20/%s-condition-differs-from-mark-model" % kind,
+                  lambda: "variant V5 tick %d: active %s model %s state %s\n%s" % (k, m.active.name, cur, state, text))
+        if post:
+            write("wpost", k)
+    return True
+
+
 def obligations(tier):
     out = []
     ticks = 3 if tier == "quick" else 4
+    for kind in ("update", "change"):
+        out.append(Ob("%s/V5-two-shares/t%d" % (kind, ticks), h5, dict(kind=kind, ticks=ticks, post=(tier != "quick")), budget=900 if tier == "quick" else 3000,
+                      covers=["write-s", "write-s2", "taken-on-s2", "re-entered"],
+                      bounds=dict(ticks=ticks, values="[0,2]", guards="[0,1]", writes="before the run" + (" and after it" if tier != "quick" else ""))))
     for kind in ("update", "change"):
         for variant in ("V1", "V2", "V3", "V4"):
             out.append(Ob("%s/%s/t%d" % (kind, variant, ticks), h, dict(variant=variant, kind=kind, ticks=ticks),
